@@ -34,8 +34,10 @@ def run(tier: str) -> int:
     drop = {("add", "x^z==1"), ("add", "u>s0"), ("eval", "u", 1, "none"), ("eval", "z", 9, "none"), ("min", "y+u", "s", "none"), ("max", "y+u", "s", "none"), ("sol", "z", 0, "x==2"), ("min", "z", "s", "none")}
     ev_q = [e for e in ev if e not in drop]
     ev_small_q = [e for e in ev_small if e not in {("downsize",), ("eval", "z", 9, "none")}]
+    # bridging: two groups of two variables each, then a constraint that joins them, a re-split, a query
+    ev_bridge = [("add", "x+y==3"), ("add", "u==z+1"), ("add", "y==z"), ("simplify",), ("max", "x+z", "u", "none"), ("eval", "u", 9, "none")]
     if tier == "quick":
-        plan = [("SolverComposite", {}, ev_q, 3, 2, ""), ("SolverComposite", {}, ev_small_q, 4, 3, "small4")]
+        plan = [("SolverComposite", {}, ev_q, 3, 2, ""), ("SolverComposite", {}, ev_small_q, 4, 3, "small4"), ("SolverComposite", {}, ev_bridge, 5, 3, "bridge5")]
     else:
         plan = [
             ("SolverComposite", {}, ev, 3, 3, ""),
@@ -43,6 +45,7 @@ def run(tier: str) -> int:
             ("SolverComposite", {}, ev_small, 5, 3, "small5"),
             ("SolverComposite", {"reuse": True}, ev_small, 4, 3, "reuse"),
             ("SolverComposite", {"track": True}, ev_small, 4, 3, "track"),
+            ("SolverComposite", {}, ev_bridge + [("eval", "x", 9, "none"), ("branch",)], 6, 3, "bridge6"),
         ]
     for cls, cfg, events, depth, max_adds, tag in plan:
         t0 = time.time()
